@@ -98,7 +98,8 @@ class Ctx:
 
 
 OPERAND_KINDS = ['numeric', 'register', 'numeric_bytecode', 'address', 'relative_address', 'indirect_numeric',
-                 'deferred_numeric', 'enumeration', 'numeric_enumeration', 'indirect_register']
+                 'deferred_numeric', 'enumeration', 'numeric_enumeration', 'indirect_register', 'indexed_register',
+                 'indirect_indexed_register']
 
 
 def gen_operand(rng: random.Random, ctx: Ctx, kind=None, opid='op'):
@@ -165,6 +166,46 @@ def gen_operand(rng: random.Random, ctx: Ctx, kind=None, opid='op'):
             arg = {'src': {'k': 'plain', 'v': v}, 'n': n, 'align': cfg['offset']['byte_align'],
                    'little': arg_little(cfg['offset'], de)}
             return {'text': t, 'code': code, 'arg': arg, 'value': v}
+        return cfg, inst
+    if kind in ('indexed_register', 'indirect_indexed_register'):
+        # register code followed by the index operand's code (composite code, big-endian, unaligned); one index alternative
+        cfg['register'] = rng.choice(ctx.regs)
+        cfg['bytecode'] = gen_code_cfg(rng)
+        n2 = rng.choice([1, 2, 3, 4, 5, 8])
+        ik = rng.choice(['numeric_bytecode', 'numeric_bytecode', 'register', 'numeric'])
+        if ik == 'numeric_bytecode':
+            lo = rng.randint(-(1 << (n2 - 1)), (1 << n2) - 1)
+            hi = rng.randint(lo, (1 << n2) - 1)
+            icfg = {'type': 'numeric_bytecode', 'bytecode': {'size': n2, 'min': lo, 'max': hi}}
+        elif ik == 'register':
+            others = [r for r in ctx.regs if r != cfg['register']] or ctx.regs
+            icfg = {'type': 'register', 'register': rng.choice(others), 'bytecode': gen_code_cfg(rng, size=n2, with_pos=False)}
+        else:
+            icfg = {'type': 'numeric', 'bytecode': gen_code_cfg(rng, size=n2, with_pos=False), 'argument': gen_arg_cfg(rng, de)}
+        cfg['index_operands'] = {opid + '_ix': icfg}
+
+        def inst(rng, value=None):
+            n1 = cfg['bytecode']['size']
+            arg = None
+            if ik == 'numeric_bytecode':
+                v = rng.choice([lo, hi, rng.randint(lo, hi)])
+                # the index text admits no operators: a negative index is written through a constant
+                iv, it = v % (1 << n2), lit(rng, v) if v >= 0 else f'kix_{opid}'
+                pre = None if v >= 0 else f'kix_{opid} = 0 - {-v}'
+            elif ik == 'register':
+                iv, it, pre = icfg['bytecode']['value'], icfg['register'], None
+            else:
+                pre = None
+                n = icfg['argument']['size']
+                v = boundary_value(rng, n, allow_neg=False)
+                iv, it = icfg['bytecode']['value'], lit(rng, v)
+                arg = {'src': {'k': 'plain', 'v': v}, 'n': n, 'align': icfg['argument']['byte_align'],
+                       'little': arg_little(icfg['argument'], de)}
+            code = {'v': (cfg['bytecode']['value'] << n2) | iv, 'n': n1 + n2, 'pos': cfg['bytecode'].get('position', 'suffix')}
+            t = cfg['register'] + rng.choice([' + ', '+', ' +']) + it
+            if kind == 'indirect_indexed_register':
+                t = '[' + t + ']'
+            return {'text': t, 'code': code, 'arg': arg, 'value': None, 'pre': pre}
         return cfg, inst
     if kind == 'numeric_bytecode':
         n = rng.choice([1, 2, 3, 4, 5, 8])
